@@ -544,3 +544,75 @@ pub fn run_fault(o: &Opts, rng: &mut Rng) -> Sink {
     }
     sink
 }
+
+
+/// stream `ctl`: channel-closure behaviours of the control handle, checked on the implementation
+/// directly (the model does not represent a closed channel; its answers are the two constants the
+/// property prescribes): a request made after the state machine is gone fails with a gone error
+/// instead of hanging; dropping every handle leaves scheduled operation intact.
+pub fn run_ctl(o: &Opts, rng: &mut Rng) -> Sink {
+    use futures::FutureExt;
+    let mut sink = Sink::new("ctl");
+    if o.only_corpus { return sink; }
+    let n = if o.thorough { 600 } else { 60 };
+    for k in 0..n {
+        let seed = rng.next();
+        let kind = k % 2;
+        let res = std::panic::catch_unwind(std::panic::AssertUnwindSafe(|| -> (String, String) {
+            let mut r = Rng::new(seed);
+            let mut init = gen_init(&mut r);
+            // valid apps only: the machine must start
+            for a in init.presets.iter_mut() { if a.id.is_empty() { a.id = "app-x".into(); } if a.version == Version::from([0, 0, 0, 0]) { a.version = Version::from([1, 0, 0, 0]); } }
+            init.name = "updater".into();
+            let hub: H = Arc::new(Mutex::new(Hub::new(init.wall, init.mono)));
+            { let mut h = hub.lock().unwrap(); h.committed = init.committed.clone(); h.cup_sign = None; }
+            let config = Config { updater: Updater { name: init.name.clone(), version: Version::from(init.uver) },
+                os: OS { platform: String::new(), version: init.osver.clone(), service_pack: String::new(), arch: String::new() },
+                service_url: "http://example.com/".into(), omaha_public_keys: None };
+            let app_set = Rc::new(FMutex::new(HAppSet { apps: init.presets.clone(), sys: init.sys.clone() }));
+            let time = HTime(hub.clone());
+            let builder = StateMachineBuilder::new(HPolicy { hub: hub.clone(), time: time.clone() }, HHttp(hub.clone()), HInstaller(hub.clone()), HTimer(hub.clone()),
+                HMetrics(hub.clone()), Rc::new(FMutex::new(HStorage(hub.clone()))), config, app_set.clone(), None::<StandardCupv2Handler>);
+            let flag = Arc::new(Flag(AtomicBool::new(false)));
+            let (handle, stream) = futures::executor::block_on(builder.start());
+            let nunits = 1 + r.below(3) as usize;
+            let mut envs: Vec<UnitEnv> = vec![];
+            for _ in 0..nunits + 2 {
+                let (mut e, _) = gen_unit(&mut r, &init, &init.presets, false);
+                // timers only: no control requests in these scripts
+                let narm = if e.next.contains('+') { 2 } else { 1 };
+                e.wake = (0..narm).map(Step::Fire).collect();
+                e.during = vec![];
+                e.rebootneeded = false;
+                envs.push(e);
+            }
+            { let mut h = hub.lock().unwrap(); h.units = envs.iter().skip(1).cloned().collect(); h.env = envs[0].clone(); }
+            let mut runner = Runner { hub: hub.clone(), stream: Box::pin(stream), handle: Some(handle), ctls: vec![], replies: vec![], flag, ended: false, polls: 0, stalled_wakeups: 0 };
+            if kind == 0 {
+                // gone: run some units, then drop the machine (its stream) and ask
+                let before = r.below(nunits as u64 + 1) as usize;
+                for _ in 0..before { runner.run_unit(); }
+                let Runner { stream, handle, .. } = runner;
+                drop(stream);
+                let mut h = handle.unwrap();
+                let opts = omaha_client::common::CheckOptions { source: if r.chance(1, 2) { omaha_client::protocol::request::InstallSource::OnDemand } else { omaha_client::protocol::request::InstallSource::ScheduledTask } };
+                let fut = async move { h.start_update_check(opts).await };
+                let out = match fut.now_or_never() { Some(Err(_)) => "gone", Some(Ok(_)) => "answered", None => "hangs" };
+                (format!("gone after={}", before), out.to_string())
+            } else {
+                // dropped handles: scheduled operation continues on timers alone
+                runner.handle = None;
+                let mut checks = 0;
+                for _ in 0..nunits { runner.run_unit(); }
+                { let h = hub.lock().unwrap(); for l in &h.trace { if l.starts_with("P allowed") { checks += 1; } } }
+                let out = if !runner.ended && checks >= nunits { "runs".to_string() } else { format!("stopped ended={} decisions={}/{}", runner.ended, checks, nunits) };
+                (format!("dropped units={}", nunits), out)
+            }
+        }));
+        match res {
+            Ok((inp, out)) => { let class = Some(inp.clone()); sink.case(format!("{} seed={}", inp, seed), class, move || out); }
+            Err(_) => { sink.case(format!("panic seed={}", seed), None, || "panic".into()); }
+        }
+    }
+    sink
+}
